@@ -25,9 +25,9 @@ def evaluate(case):
         return "row left NaN"
     import ast
     if "linspace" in t:
-        vals = np.linspace(0.1, 0.7, 4)
+        vals = np.linspace(*ast.literal_eval(t[t.index("("):]))
     elif "range" in t:
-        vals = np.array([3.0, 2.0])
+        vals = np.arange(*ast.literal_eval(t[t.index("("):]), dtype=float)
     else:
         vals = ast.literal_eval(t)
     nm = np.sort(np.array(vals, dtype=float).ravel())
@@ -67,6 +67,14 @@ def cases(tier):
         b = str(nb) if i % 4 == 0 else f"{ab}_{nb}"
         o = str(no) if i % 5 == 0 else f"{ao}_{no}"
         out.append({"b": b, "o": o, "t": T_TEXTS[nt], "seed": i})
+    # larger direction grids (complete and partial subdivision levels) with radii that are not exact to 8 decimals in Angstrom:
+    # the decomposition rounds to 8 decimals, so direction components near a rounding boundary must still be recognised as one
+    # direction across shells
+    odd_t = ["linspace(0.2, 0.6, 7)", "[0.15, 0.2222222222, 0.3141592653]", "linspace(1, 2, 7)", "[0.1234567891, 0.31, 0.7071067811]"]
+    big_o = ["ico_42", "ico_60", "cube3D_50", "cube3D_150"] if tier == "quick" else ["ico_42", "ico_60", "ico_162", "cube3D_50", "cube3D_98", "cube3D_150", "randomS_80"]
+    for j, o in enumerate(big_o):
+        for k, t in enumerate(odd_t if tier != "quick" else odd_t[j % 2::2]):
+            out.append({"b": "2" if (j + k) % 2 else "cube4D_3", "o": o, "t": t, "seed": 900 + 10 * j + k})
     return out
 
 
